@@ -29,6 +29,7 @@ PassCallOk(e) ==
      ELSE IF e.op \in {"write", "vectored"} THEN
         IF kind = "ok" THEN
            /\ e.ret[2] <= n
+           /\ (e.ret[2] = 0 /\ n > 0 => HasZero(inner))      \* progress (as StripStream I5)
            /\ ~(\E k \in 1..Len(inner) : IsErr(inner[k][3]))
            /\ \A i \in 1..n : AcceptedAt(inner, i) = (i <= e.ret[2])
         ELSE kind \in {"eI", "eW", "eO"} /\ HasErr(inner, kind) /\ (kind = "eI" => ~AnyAccepted(inner))
